@@ -146,4 +146,6 @@ MUTANTS = [
     ("C08", "detect", "specs/openapi/schemas.py", "        path = path.replace(\"~1\", \"/\").replace(\"~0\", \"~\")\n        # Check the traversal cache", "        path = path.replace(\"~1\", \"/\")\n        # Check the traversal cache", "reference lookup never decodes ~0"),
     ("C09", "detect", "generation/case.py", "            curl = self.as_curl_command(headers=dict(response.request.headers), verify=verify)", "            curl = self.as_curl_command(headers=dict(self.headers or {}), verify=verify)", "failure message's curl built from the case headers, not the sent ones"),
     ("C10", "detect", "specs/openapi/stateful/__init__.py", "                    if isinstance(extracted.value, Ok) and extracted.value.ok() not in (None, UNRESOLVABLE)", "                    if isinstance(extracted.value, Ok) and extracted.value.ok() is not None", "UNRESOLVABLE marker passed on as a parameter value"),
+    ("C20", "detect", GQL, "                field_name=field_name,\n                root_type=root_type,", "                field_name=field_name,\n                root_type=RootType.QUERY,", "every GraphQL operation recorded as a query"),
+    ("C11", "detect", UNIT, "    try:\n        setup_hypothesis_database_key(test_function, operation)\n        with catch_warnings", "    setup_hypothesis_database_key(test_function, operation)\n    try:\n        with catch_warnings", "database-key fault escapes the worker's error handling"),
 ]
